@@ -122,7 +122,7 @@ CLAIMED['C16'] = dict(
          'over the history through one invariant): fires_at_most_once, fires_with_matching_tid (TCP), fifo_order + fifo_reply_oldest '
          '(serial), delivered_reply_is_the_arrived_one, unsolicited_dropped / duplicate_dropped / reply_keeps_others, '
          'lost_fails_all_pending (re-entrant requests issued inside connectionLost included), after_loss_every_execute_fails + '
-         'connection_private / connection_is_single_history / chunks_are_replies / chunking_independent + chunking_same_as_whole (ANY division of a stream of valid reply frames into reads gives exactly the state and events of the replies arriving whole; via C06, possible since dataReceived passes unit=0) / split_reply_delivered / unit_from_chunk_counterexample (mutant Guess.*: the fixed finding async-unit-from-chunk) / generated_data_received_unit / multi_connection_lifts (several protocol objects in one process, replies arriving in chunks through the framer models: an operation on one connection changes nothing of another, so every history theorem holds per connection), shared_buffer_counterexample (mutant with one framer for all objects), generated_per_instance_state + generated_manager_kinds + generated_data_received_unit (regenerated from the source each run: per-object framer and manager, which manager each way of building a protocol object gives, what dataReceived passes as unit), after_loss_history, after_close_every_execute_fails + lost_after_close_fails_all_pending + close_then_lost (a local close() anywhere in the history), no_exception, C16_fifo (whole property, serial variant) and - in full since the repaired id allocation (5cae7f5) - '
+         'connection_private / connection_is_single_history / chunks_are_replies / chunking_independent + chunking_same_as_whole (ANY division of a stream of valid reply frames into reads gives exactly the state and events of the replies arriving whole; via C06, possible since dataReceived passes unit=0) / split_reply_delivered / unit_from_chunk_counterexample (mutant Guess.*: the fixed finding async-unit-from-chunk) / generated_data_received_unit / multi_connection_lifts (several protocol objects in one process, replies arriving in chunks through the framer models: an operation on one connection changes nothing of another, so every history theorem holds per connection), shared_buffer_counterexample (mutant with one framer for all objects), generated_per_instance_state + generated_manager_kinds + generated_data_received_unit (regenerated from the source each run: per-object framer and manager, which manager each way of building a protocol object gives, what dataReceived passes as unit), after_loss_history, after_close_every_execute_fails + lost_after_close_fails_all_pending + close_then_lost (a local close() anywhere in the history), no_exception, failed_send_leaves_no_deferred + failed_send_keeps_outstanding + reply_after_failed_send + fifo_reply_oldest_after_failed_send (execute calls whose encoding or transport.write raises: nothing is registered, later replies still reach their own requests), orphan_counterexample (mutant Orphan.*: deferred registered before the send), generated_failed_send (observed on the real protocol objects each run), C16_fifo (whole property, serial variant) and - in full since the repaired id allocation (5cae7f5) - '
          'C16_dict (whole property, TCP variant, every history, any number of wraps of the 16-bit counter, requests pending for '
          'any length of time), distinct_ids / distinct_ids_final / table_keys_distinct, no_deferred_lost, next_tid_is_free '
          '(pigeonhole over the 65536 candidates of the getNextTID loop), all with the single decidable side condition Spec.RoomAll: '
